@@ -1,6 +1,32 @@
 """Decidable input classes of the known findings (see KNOWN_FINDINGS.jsonl). Each function gets
 (case, impl outcome, model outcome) and says whether the case is an instance of that finding."""
+import re
 
 
 def never(case, impl, model):
+    return False
+
+
+def d10(case, impl, model):
+    """unidiff re-reads hunk bodies: a removed line starting with `-- ` or an added line starting with `++ `"""
+    d = case.get("diff") or ""
+    for l in d.split("\n"):
+        if l.startswith("--- ") and not l.startswith("--- a/") and not l.startswith("--- /dev/null"):
+            return True
+        if l.startswith("+++ ") and not l.startswith("+++ b/"):
+            return True
+    return False
+
+
+def d1_d9(case, impl, model):
+    """handled inside the drift oracle (registry.drift_eval): explained iff the code's walk differs from the repaired walk"""
+    return False
+
+
+def d13(case, impl, model):
+    """tree-sitter-html: an HTML comment written inside a quoted attribute value or a <textarea>"""
+    for f in case.get("files", []):
+        t = f.get("text") or ""
+        if f["path"].endswith((".html", ".htm")) and (re.search(r'="[^"]*<!--', t) or re.search(r"='[^']*<!--", t) or "<textarea" in t):
+            return True
     return False
